@@ -231,3 +231,63 @@ Proof.
   destruct (f v0) eqn:Ef; cbn [snd]; try discriminate.
   intros [= ->]. rewrite lookup_abs in E by exact Hn. exact (Hf k f c0 v0 eq_refl E Ef).
 Qed.
+
+(** ** The window arithmetic of the memory backend on the whole uint64 range *)
+
+Definition bop_nowrapb (o : bop) : bool :=
+  match o with
+  | BWalkPartial off n _ _ | BWalkPartialClass _ off n _ _ => off + n <? two64
+  | _ => true
+  end.
+
+(** the range of the statement lies inside the no-wrap range *)
+Lemma bop_ok_nowrap o : bop_okb o = true -> bop_nowrapb o = true.
+Proof.
+  destruct o; cbn [bop_okb bop_nowrapb]; auto; intros H; apply bop_ok_partial in H;
+    destruct H; apply N.ltb_lt; now apply range_nowrap.
+Qed.
+
+(** no panic whenever offset + limit does not wrap around *)
+Lemma mem_never_panics_nowrap t o :
+  nodupk t -> bop_nowrapb o = true ->
+  (forall k f c v, o = BMutate k f -> lookup k t = Some (c, v) -> f v <> MFail EPanic) ->
+  snd (mem_step t o) <> RErr EPanic.
+Proof.
+  intros Hn Hw Hf. destruct o; try (apply mem_never_panics; auto; reflexivity);
+    cbn [bop_nowrapb] in Hw; apply N.ltb_lt in Hw; cbn [mem_step snd].
+  - rewrite mem_walk_partial_nowrap by assumption. unfold walk_result.
+    destruct (visit _ _). discriminate.
+  - rewrite mem_walk_partial_class_nowrap by assumption. unfold walk_result.
+    destruct (visit _ _). discriminate.
+Qed.
+
+Lemma lenN_sort_keys desc ks : lenN (sort_keys desc ks) = lenN ks.
+Proof.
+  unfold sort_keys, lenN. f_equal.
+  assert (forall ltb x s, length (kins ltb x s) = S (length s)) as Hk.
+  { intros ltb x s. induction s as [|y s IH]; cbn [kins length]; [reflexivity|].
+    destruct (ltb x y); cbn [length]; auto. }
+  assert (forall ltb l, length (ksort ltb l) = length l) as Hs.
+  { intros ltb l. induction l as [|x l IH]; cbn [ksort fold_right length]; [reflexivity|].
+    fold (ksort ltb l). now rewrite Hk, IH. }
+  destruct desc; apply Hs.
+Qed.
+
+(** ... and exactly when it does wrap around (an offset or a limit of 2^63 or
+    more) with the wrapped end below the start, the slice expression of
+    partialKeys panics *)
+Lemma mem_partial_panics_exactly t off n desc f :
+  off < two64 -> n < two64 -> nodupk t ->
+  (snd (mem_step t (BWalkPartial off n desc f)) = RErr EPanic <->
+   two64 <= off + n /\ N.min (off + n - two64) (lenN t) < N.min off (lenN t)).
+Proof.
+  intros Ho Hl Hn. cbn [mem_step snd].
+  destruct (N.lt_ge_cases (off + n) two64) as [Hw|Hw].
+  - rewrite mem_walk_partial_nowrap by assumption. unfold walk_result.
+    destruct (visit _ _). split; [discriminate|]. intros [H _]. lia.
+  - rewrite (mem_walk_wrap f t off n _ Ho Hl Hw), lenN_sort_keys.
+    unfold mem_keys, lenN. rewrite map_length. fold (lenN t).
+    destruct (N.ltb_spec (N.min (off + n - two64) (lenN t)) (N.min off (lenN t))) as [H|H].
+    + split; auto.
+    + split; [discriminate|]. intros [_ H']. lia.
+Qed.
